@@ -7,7 +7,7 @@ C13 driver.  Case grammar (one line):
   `tex <attribute> <format code> <width> <height> <depth> <mip levels> <64 bytes hex: 3 LOD + 13 surface offsets> <payload hex>`
 
 * input for the real code: `tex <hex of Spec.Tex.encode header payload>`
-* expected: the canonical specified decoding `Spec.Tex.expected .always4`
+* expected: the canonical specified decoding `Spec.Tex.expected .bc1Modes`
 * model: `Tex.fromExisting` on the encoded file
 * answers: `<width> <height> <depth> <2d|3d> <rgba hex>` | `none` | `panic`
 * tag `kf:bc3-colour-mode`: the texture is in the class `Spec.Bcn.Bc3ConventionsDiffer`
@@ -86,7 +86,7 @@ def judge (caseLine ans : String) : String :=
     match parseDecoded ans with
     | none => "JUDGE\tfail"
     | some r =>
-      if decide (Spec.Tex.DecodedOK .always4 c.fmt c.header c.payload r) then "JUDGE\tok" else "JUDGE\tfail"
+      if decide (Spec.Tex.DecodedOK .bc1Modes c.fmt c.header c.payload r) then "JUDGE\tok" else "JUDGE\tfail"
 
 /-- one case line in, one answer line out (see `Base/Proto.lean`) -/
 def handle (line : String) : String :=
@@ -100,16 +100,14 @@ def handle (line : String) : String :=
     let w := c.header.width.toNat
     let h := c.header.height.toNat
     let d := c.header.depth.toNat
-    let inClass := decide (Spec.Bcn.Bc3ConventionsDiffer c.fmt w h d c.payload.toArray)
-    let tags :=
-      (if w * h * d = 0 then ["triv"] else []) ++ (if inClass then ["kf:bc3-colour-mode"] else [])
-    match Spec.Tex.expected .always4 c.header c.payload with
+    -- BC3 colour: the property statement says "BC3 interpolated alpha over BC1 colour" right after
+    -- naming both BC1 modes, so the specified colour decode is BC1's (both modes); the D3D/Khronos
+    -- "always 4-colour" reading is kept in Spec/Bcn.lean (`.always4`) and in the `_partial`
+    -- theorems as a remark only (lead's ruling, DESIGN.md §13)
+    let tags := (if w * h * d = 0 then ["triv"] else [])
+    match Spec.Tex.expected .bc1Modes c.header c.payload with
     | none => bad
     | some e =>
-      -- inside the class of the open finding the implementation may show the recorded behaviour
-      -- (a known hit) or the specified one (no alarm): the model of the defective code is not
-      -- a second reference there, so it is not emitted
-      answer ("tex " ++ hexFast file) (showDecoded e) tags
-        (if inClass then none else some (showModel (Tex.fromExisting file)))
+      answer ("tex " ++ hexFast file) (showDecoded e) tags (some (showModel (Tex.fromExisting file)))
 
 end Physis.Driver.C13
